@@ -571,7 +571,7 @@ def generate():
                 "Definition arrange := arrange_of arrange_outer_is_state arrange_expr.\n"
                 "Definition perm_cols := %s.\nDefinition relayout := %s.\n"
                 % (vals, coq_bool(structure), coq_bool(outer_is_state), expr, coq_bool(perm_cols), coq_bool(relayout)))
-    except Unsupported as u:
+    except (Unsupported, ValueError, TypeError, IndexError, KeyError, AttributeError, AssertionError, RecursionError) as u:   # any surprise in the source = fail closed
         # the intended model, so that the correspondence still says where the code departs from it
         return (failed("SensGen", str(u)) + HEAD +
                 "Definition code_facts : facts := good_facts.\nDefinition structure_ok := false.\n"
